@@ -218,5 +218,6 @@ def answer (he : HostEnv) (w : World) : Interp.HostOp → R (Interp.HostResp × 
   | .loadAccountDelegated a => do
     let (w, isEmpty, cold, dcold) ← w.loadAccountDelegated a
     pure ({ isEmpty := isEmpty, isCold := cold, delegCold := dcold }, w)
+  | .create2Address d s c => pure ({ word := Keccak.create2Address d s (Keccak.keccak256w c) }, w)
 
 end Revm.Model.Evm
